@@ -100,6 +100,175 @@ def merge_intervals(leaves):
     return out
 
 
+
+def _all_views(crate, v):
+    """the function and the closures it creates (transitively)"""
+    out = [v]
+    seen = set()
+    work = [v]
+    while work:
+        x = work.pop()
+        for bb in x.reach:
+            for st in x.blocks[bb]["stmts"]:
+                if st["k"] == "assign" and st["rv"]["k"] == "agg" and st["rv"].get("ak") == "closure":
+                    p = st["rv"].get("path")
+                    if p and p not in seen:
+                        seen.add(p)
+                        cv = closure_view(crate, p)
+                        if cv is not None:
+                            out.append(cv)
+                            work.append(cv)
+    return out
+
+
+def select_general(crate, v, mins, budget_locals):
+    """Selection written in another way than the map / filter / min_by chain: what can be said for any formulation.
+    (1) the only metric is strsim::damerau_levenshtein; (2) nothing selects a last / a maximum; (3) an explicit loop
+    replaces its best candidate only on a strictly smaller distance; everything else is left undecided."""
+    fs = []
+    views = _all_views(crate, v)
+    metrics = []
+    for x in views:
+        for bb, c in x.calls():
+            if c.fn is not None and c.krate == "strsim":
+                metrics.append((x, bb, c))
+    for x, bb, c in metrics:
+        if c.path != "strsim::damerau_levenshtein":
+            fs.append(fnd("C18.SELECT", x, "the metric is %s, not strsim::damerau_levenshtein" % c.path, bb))
+    for x in views:
+        for bb, c in x.calls():
+            if c.fn is not None and c.trait and erase_generics(c.trait) in ("std::iter::Iterator", "std::iter::DoubleEndedIterator") and c.name in ("max_by", "max_by_key", "max", "last", "rev", "rfind", "next_back"):
+                fs.append(fnd("C18.SELECT", x, "the candidate is selected with %s: not the first of the closest candidates" % c.name, bb))
+    decided = False
+    # iterator form with other adaptors: min_by / min_by_key over accepted, every filter looks at the distance
+    sel = [bb for bb in mins if v.callee(bb).name in ("min_by", "min_by_key")]
+    if len(sel) == 1 and len(mins) == 1:
+        t = canon(v, v.origin_call(sel[0]))
+        cur = t
+        ok_chain = True
+        filters = []
+        while cur[0] == "call":
+            nm = call_name(v, cur) or ""
+            short = nm.split("::")[-1]
+            if short not in ("min_by", "min_by_key", "filter", "map", "filter_map", "iter", "copied", "cloned", "into_iter"):
+                ok_chain = False
+            if short in ("filter", "filter_map") and len(cur[3]) > 1:
+                filters.append(strip_refs(cur[3][1]))
+            if not cur[3]:
+                break
+            cur = cur[3][0]
+        if ok_chain and strip_refs(cur) == ("param", 2):
+            for cl in filters:
+                if cl[0] == "agg" and cl[1] == "closure":
+                    cv = closure_view(crate, cl[3])
+                    if cv is None:
+                        continue
+                    sees_distance = any(c.fn is not None and c.krate == "strsim" for _, c in cv.calls()) or "usize)" in cv.b.ltys(2) or "usize)" in (cv.b.ltys(2) if cv.b.arg_count >= 2 else "")
+                    if not sees_distance:
+                        fs.append(fnd("C18.SELECT", cv, "candidates are dropped by a condition that does not look at their distance"))
+    # loop form: `best = Some((candidate, distance))` replaced only when distance < best.1
+    for h, body in v.loops():
+        for bb in sorted(body):
+            for st in v.blocks[bb]["stmts"]:
+                if st["k"] == "assign" and not st["place"]["p"] and st["rv"]["k"] == "agg" and st["rv"].get("variant") == "Some" and "usize)" in v.b.ltys(st["place"]["l"]):
+                    best = st["place"]["l"]
+                    rb = bb
+                    # (the aggregate may first go to a temporary that is then moved into the variable)
+                    for b3 in sorted(body):
+                        for st3 in v.blocks[b3]["stmts"]:
+                            if st3["k"] == "assign" and not st3["place"]["p"] and st3["rv"]["k"] == "use" and st3["rv"]["op"]["k"] == "move" \
+                                    and not st3["rv"]["op"]["place"]["p"] and st3["rv"]["op"]["place"]["l"] == best and len(v.whole_defs(st3["place"]["l"])) > 1:
+                                best, rb = st3["place"]["l"], b3
+                                break
+                    r = _loop_replacement_rule(v, body, best, rb)
+                    if r is False:
+                        fs.append(fnd("C18.SELECT", v, "the best candidate is replaced by one at the same distance: not the first of the closest candidates", bb))
+                        decided = True
+                    elif r is True:
+                        decided = True
+    if not fs and not decided:
+        f_ = fnd("C18.SELECT", v, "the selection is not written as accepted.iter().map(distance).filter(budget).min_by(distance): only the metric and the absence of last / max selection were checked (undecided)")
+        f_.undecided = True
+        fs.append(f_)
+    return fs
+
+
+def _loop_replacement_rule(v, body, best, repl_bb):
+    """True: the replacement of `best` (when it is Some) happens only under distance < best.1; False: it can happen at
+    an equal distance; None: not understood"""
+    # temporaries that end up in best
+    targets = {best}
+    for bb in body:
+        for st in v.blocks[bb]["stmts"]:
+            if st["k"] == "assign" and not st["place"]["p"] and st["place"]["l"] == best and st["rv"]["k"] == "use" and st["rv"]["op"]["k"] == "move" and not st["rv"]["op"]["place"]["p"]:
+                targets.add(st["rv"]["op"]["place"]["l"])
+
+    def is_best_dist(term):
+        t = strip_refs(term)
+        return t[0] == "field" and str(t[3]) == "1" and term_mentions(t, lambda y: y == ("multi", best) or (isinstance(y, tuple) and len(y) > 1 and y[0] == "multi" and y[1] in targets))
+
+    verdicts = []
+    for bb in sorted(body):
+        blk = v.blocks[bb]
+        for st in blk["stmts"]:
+            if st["k"] != "assign" or st["rv"]["k"] != "binop" or st["rv"]["op"] not in ("Lt", "Le", "Gt", "Ge"):
+                continue
+            a = canon(v, v.origin(st["rv"]["a"]))
+            b2 = canon(v, v.origin(st["rv"]["b"]))
+            op = st["rv"]["op"]
+            if is_best_dist(a) and not is_best_dist(b2):
+                # best OP distance  ==  distance OP' best
+                op = {"Lt": "Gt", "Le": "Ge", "Gt": "Lt", "Ge": "Le"}[op]
+            elif is_best_dist(b2) and not is_best_dist(a):
+                pass
+            else:
+                continue
+            cl = st["place"]["l"]
+            # where is the result switched on?
+            for sb in sorted(body):
+                info = v.switch_info(sb)
+                if not info or info["kind"] != "bool":
+                    continue
+                d = v.blocks[sb]["term"]["discr"]
+                if d["k"] not in ("copy", "move") or d["place"]["p"]:
+                    continue
+                dl = d["place"]["l"]
+                feeds = dl == cl
+                if not feeds:
+                    for df in v.whole_defs(dl):
+                        if df[0] == "stmt" and df[3]["rv"]["k"] == "use" and df[3]["rv"]["op"]["k"] in ("move", "copy") and not df[3]["rv"]["op"]["place"]["p"] and df[3]["rv"]["op"]["place"]["l"] == cl:
+                            feeds = True
+                        if df[0] == "stmt" and df[3] is st:
+                            feeds = True
+                if not feeds:
+                    continue
+                tt, ft = v.edge_target(info, True), v.edge_target(info, False)
+                if tt is None or ft is None:
+                    continue
+                headers = set(h2 for h2, bd2 in v.loops() if set(bd2) == set(body) or repl_bb in bd2)
+
+                def in_body(s):
+                    # blocks reachable inside this iteration (not through the loop header)
+                    seen_ = set()
+                    work_ = [s]
+                    while work_:
+                        x_ = work_.pop()
+                        if x_ in seen_ or x_ not in body or x_ in headers:
+                            continue
+                        seen_.add(x_)
+                        work_.extend(v.succ[x_])
+                    return seen_
+                t_repl = repl_bb in in_body(tt) and not (repl_bb in in_body(ft))
+                f_repl = repl_bb in in_body(ft) and not (repl_bb in in_body(tt))
+                if t_repl:
+                    verdicts.append(op == "Lt")          # replace iff distance < best
+                elif f_repl:
+                    verdicts.append(op == "Ge")          # keep iff distance >= best  <=> replace iff distance < best
+    if not verdicts:
+        return None
+    return all(verdicts)
+
+
 def run(ctx):
     res = PropResult("C18")
     res.level = "other"
@@ -109,19 +278,30 @@ def run(ctx):
         if x.path == "errors::helpers::did_you_mean":
             b = x
     if b is None:
-        res.add("C18.BUDGET", 1, [Finding("C18.BUDGET", "did_you_mean", "function not found", "")])
+        res.add("C18.BUDGET", 1, [Finding("C18.BUDGET", "did_you_mean", "function not found (undecided)", "", undecided=True)])
         return res
+    import inline
+    b = inline.expand_local_helpers(crate, b)
     v = View(b)
     fs = []
     # ---- BUDGET
     lens = [bb for bb, c in v.calls() if c.fn is not None and c.name == "len" and "str" in c.path]
-    if len(lens) != 1 or strip_refs(canon(v, v.origin(v.blocks[lens[0]]["term"]["args"][0]))) != ("param", 1):
-        fs.append(fnd("C18.BUDGET", v, "the budget is not derived from the byte length of the received string"))
+    budget_locals = set()
+    lens = [bb for bb in lens if strip_refs(canon(v, v.origin(v.blocks[bb]["term"]["args"][0]))) == ("param", 1)]
+    if len(lens) != 1:
+        f_ = fnd("C18.BUDGET", v, "no single `received.len()` found: budget table not extracted (undecided)")
+        f_.undecided = True
+        fs.append(f_)
         table = []
     else:
         leaves = budget_table(v, lens[0])
         table = merge_intervals(leaves)
-        if table != WANT:
+        if any(val == "other" for _, val in table) or not table:
+            f_ = fnd("C18.BUDGET", v, "the dispatch on the length was not fully read (%s): budget table not extracted (undecided)" % (
+                [(a, b2 if b2 < INF else "inf", val) for ((a, b2), val) in table]))
+            f_.undecided = True
+            fs.append(f_)
+        elif table != WANT:
             fs.append(fnd("C18.BUDGET", v, "typo budget table is %s, the statement says %s" % (
                 [(a, b2 if b2 < INF else "inf", val) for ((a, b2), val) in table], [(a, b2 if b2 < INF else "inf", val) for ((a, b2), val) in WANT])))
         budget_locals = set(l for _, _, l in leaves if l is not None)
@@ -130,8 +310,19 @@ def run(ctx):
     fs = []
     ob = 8
     mins = [bb for bb, c in v.calls() if c.fn is not None and c.trait and erase_generics(c.trait) == "std::iter::Iterator" and c.name in ("min_by", "min_by_key", "max_by", "max_by_key", "min", "max", "fold", "reduce", "last", "find")]
-    if len(mins) != 1 or v.callee(mins[0]).name != "min_by":
-        fs.append(fnd("C18.SELECT", v, "the suggestion is not selected with Iterator::min_by (first minimum)"))
+    exact = False
+    if len(mins) == 1 and v.callee(mins[0]).name == "min_by":
+        t0 = canon(v, v.origin_call(mins[0]))
+        ch0 = []
+        c0_ = t0
+        while c0_[0] == "call":
+            ch0.append(call_name(v, c0_))
+            if not c0_[3]:
+                break
+            c0_ = c0_[3][0]
+        exact = ch0 == ["std::iter::Iterator::min_by", "std::iter::Iterator::filter", "std::iter::Iterator::map", "core::slice::iter"]
+    if not exact:
+        fs += select_general(crate, v, mins, budget_locals)
     else:
         t = canon(v, v.origin_call(mins[0]))
         chain = []
@@ -221,6 +412,10 @@ def run(ctx):
                         oks = True
             if not oks:
                 fs.append(fnd("C18.SELECT", v, "the suggestion does not name the selected candidate"))
+    if getattr(b, "inlined", None):
+        for f_ in fs:
+            if "metric" not in f_.what and "same distance" not in f_.what and "does not look at their distance" not in f_.what and "not the first" not in f_.what:
+                f_.undecided = True
     res.add("C18.SELECT", ob, fs)
     res.samples = [{"budget_table": [(a, b2 if b2 < INF else "inf", val) for ((a, b2), val) in table]},
                    {"selection": "accepted.iter().map(|c| (c, damerau_levenshtein(received, c))).filter(d <= budget).min_by(d1.cmp(d2))"}]
